@@ -12,6 +12,7 @@ import (
 	"net"
 	"net/http"
 	"net/http/httptest"
+	"net/url"
 	"sort"
 	"strings"
 	"sync"
@@ -436,6 +437,30 @@ func (g *gatewayUnderTest) do(ctx context.Context, query string, vars map[string
 	}
 	if e, ok := raw["extensions"]; ok {
 		_ = json.Unmarshal(e, &out.Ext)
+	}
+	return out, nil
+}
+
+// doGET sends the operation in the query string (gqlgen's GET transport is registered by Gateway.Router).
+func (g *gatewayUnderTest) doGET(ctx context.Context, query string, hdr map[string]string) (*gwResponse, error) {
+	req := httptest.NewRequest("GET", "/query?query="+url.QueryEscape(query), nil).WithContext(ctx)
+	for k, v := range hdr {
+		req.Header.Set(k, v)
+	}
+	rr := httptest.NewRecorder()
+	g.handler.ServeHTTP(rr, req)
+	out := &gwResponse{Status: rr.Code, Body: rr.Body.String()}
+	var raw map[string]json.RawMessage
+	if err := json.Unmarshal(rr.Body.Bytes(), &raw); err != nil {
+		return out, nil
+	}
+	if d, ok := raw["data"]; ok {
+		if oj, err := parseOJ(d); err == nil {
+			out.Data = oj
+		}
+	}
+	if e, ok := raw["errors"]; ok {
+		_ = json.Unmarshal(e, &out.Errors)
 	}
 	return out, nil
 }
